@@ -793,6 +793,14 @@ class BuiltinMixin:
     def x_bi_same_value(self, args, kw, st, node):
         """Identity of JSON values (the very same value, not merely Python-equal)."""
         a, b = args
+        if a.ty.name == "Opt" and b.ty.name != "Opt":
+            return Val(BOOL, z3.And(z3.Not(self.is_none(a, st)), self.x_bi_same_value([self._inner(a), b], kw, st, node).t))
+        if b.ty.name == "Opt" and a.ty.name != "Opt":
+            return self.x_bi_same_value([b, a], kw, st, node)
+        if a.ty == NONE or b.ty == NONE:
+            return Val(BOOL, self.is_none(b if a.ty == NONE else a, st))
+        if not (z3.is_expr(a.t) and z3.is_expr(b.t) and a.t.sort() == b.t.sort()):
+            raise Unsupported(f"same_value of {a.ty} and {b.ty}")
         return Val(BOOL, a.t == b.t)
 
     def x_bi_jv_list(self, args, kw, st, node):
